@@ -312,7 +312,7 @@ class Roles:
                     continue
                 gp = adt["generics"]
                 occ = [v for v in adt["variants"] if len(v["fields"]) == 1 and v["fields"][0]["ty"] in gp]
-                free = [v for v in adt["variants"] if len(v["fields"]) == 1 and v["fields"][0]["ty"] == "usize"]
+                free = [v for v in adt["variants"] if len(v["fields"]) == 1 and re.match(r"(usize|u8|u16|u32|u64|u128)$", v["fields"][0]["ty"])]
                 if len(adt["variants"]) == 2 and occ and free:
                     cands.append(path)
             for e in cands:
@@ -321,7 +321,7 @@ class Roles:
                         continue
                     flds = adt["variants"][0]["fields"]
                     holder = [f for f in flds if (e + "<") in f["ty"]]
-                    usz = [f for f in flds if f["ty"] == "usize"]
+                    usz = [f for f in flds if re.match(r"(usize|u8|u16|u32|u64|u128)$", f["ty"])]      # widths are C02 R2.2's obligation
                     if holder and len(usz) >= 2:
                         return (e, path, holder[0]["name"])
             raise AnchorLost("SLOT: no crate enum {occupied(F), free(usize)} stored by a struct with usize bookkeeping")
@@ -338,7 +338,7 @@ class Roles:
             tys = [x["ty"] for x in v["fields"]]
             if tys and tys[0] in gp:
                 occ = v["name"]
-            elif tys == ["usize"]:
+            elif len(tys) == 1 and re.match(r"(usize|u8|u16|u32|u64|u128)$", tys[0]):
                 free = v["name"]
         if occ is None or free is None:
             raise AnchorLost("SLOT: enum %s lacks an occupied(F)/free(usize) variant pair" % enum_path)
